@@ -123,6 +123,17 @@ func gen(g *vh.Gen) {
 	// the cap shrinks between runs: the next delivery evicts several messages at once
 	emit(0, []string{a(0, 1), a(0, 2), a(0, 3), a(0, 4), "C.2", a(0, 5), "R"})
 	emit(3, []string{a(1, 1), a(1, 2), a(1, 3), "X", "C.1", a(1, 4), "C.0", a(1, 5)})
+	// restart with large on-disk structures: an index of about 1.4 MiB (12 messages x 4000 recipients), one of about
+	// 70 KiB; thorough: about 4 MiB, many plain messages, bodies of 1 MiB and 32 MiB
+	g.Emit("big", "0", pool, "12", "4000", "4")
+	g.Emit("big", "0", pool, "4", "600", "4096")
+	if g.Tier == "thorough" {
+		g.Emit("big", "0", pool, "12", "12000", "1")
+		g.Emit("big", "500", pool, "300", "120", "1")
+		g.Emit("big", "0", pool, "3", "2", "65536")
+		g.Emit("big", "0", pool, "2", "2", "2097152")
+		g.Emit("big", "2", pool, "5", "3000", "16")
+	}
 	// the SERVER is stopped and started again on the same storage path (retention disabled / 24 h, with and without a cap)
 	g.Emit("srv", "0", pool, "0", "sa,sb,sa,sc,sa")
 	g.Emit("srv", "0", pool, "24h", "sa,sb,sb")
